@@ -14,3 +14,5 @@ pub mod c14;
 pub mod c17;
 pub mod c16;
 pub mod c15;
+pub mod c06;
+pub mod c08;
